@@ -9,7 +9,7 @@ namespace Fit.C14
 open Fit.FileDef Fit.FileDef.Generated
 
 /-- Obligation on the regenerated tables (all 17 file types): slot numbers are distinct, no message number is
-dropped, the first three slots are file_id (value), developer_data_id, field_description (lists), and the sort
+dropped, the observed kind of every slot (singleton / list) is the kind the exported struct declares, the first three slots are file_id (value), developer_data_id, field_description (lists), and the sort
 never starts inside this prefix. A file type that drops a message kind or moves the prefix breaks this. -/
 theorem C14_tables_ok : ∀ T ∈ fileTypes, TableOK T := by decide
 
@@ -20,14 +20,15 @@ def hasFileId (msgs : List Msg) : Bool := msgs.any (fun m => m.num == mesgNumFil
 (file_id, activity, user_profile, …: the last one added wins) — nothing else lost, nothing duplicated, arrival
 order kept within every kind. -/
 theorem C14_build_keeps_last {T : FileType} (hT : T ∈ fileTypes) (msgs : List Msg) :
-    build T msgs = keepLast T (msgs.map (normT T)) :=
-  build_eq_keepLast (C14_tables_ok T hT) msgs
+    build T msgs = keepLastDecl T (msgs.map (normT T)) := by
+  rw [keepLastDecl_eq (C14_tables_ok T hT)]; exact build_eq_keepLast (C14_tables_ok T hT) msgs
 
 /-- **Conservation.** `ToFIT` of the built file is, as a multiset, exactly `keepLast` of the (normalised) input:
 no message lost or duplicated, singletons keep their last occurrence. (Input with a file_id message.) -/
 theorem C14_conservation {T : FileType} (hT : T ∈ fileTypes) (msgs : List Msg) (hfid : hasFileId msgs = true) :
-    (toFIT T (build T msgs)).Perm (keepLast T (msgs.map (normT T))) := by
+    (toFIT T (build T msgs)).Perm (keepLastDecl T (msgs.map (normT T))) := by
   have hok := C14_tables_ok T hT
+  rw [keepLastDecl_eq hok]
   have h1 := (toFIT_perm_emission T (build T msgs)).trans (emission_perm hok (build T msgs))
   rw [build_eq_keepLast hok] at h1 ⊢
   have hany : (keepLast T (msgs.map (normT T))).any (fun m => m.num == mesgNumFileId) = true := by
@@ -38,8 +39,9 @@ theorem C14_conservation {T : FileType} (hT : T ∈ fileTypes) (msgs : List Msg)
 /-- The code's behaviour on an input without file_id (stated exactly): the file struct holds `FileId` by value, so
 `ToFIT` emits one zero-valued file_id that was never added; everything else is conserved as above. -/
 theorem C14_conservation_no_file_id {T : FileType} (hT : T ∈ fileTypes) (msgs : List Msg) (hfid : hasFileId msgs = false) :
-    (toFIT T (build T msgs)).Perm (defaultMsg T mesgNumFileId :: keepLast T (msgs.map (normT T))) := by
+    (toFIT T (build T msgs)).Perm (defaultMsg T mesgNumFileId :: keepLastDecl T (msgs.map (normT T))) := by
   have hok := C14_tables_ok T hT
+  rw [keepLastDecl_eq hok]
   have h1 := (toFIT_perm_emission T (build T msgs)).trans (emission_perm hok (build T msgs))
   rw [build_eq_keepLast hok] at h1 ⊢
   have hany : (keepLast T (msgs.map (normT T))).any (fun m => m.num == mesgNumFileId) = false := by
@@ -172,9 +174,9 @@ The witness is stated on a *pinned literal copy* of the probed workout table (so
 
 def pinnedWorkout : FileType := {
   name := "workout", gotype := "filedef.Workout", ftype := 5, sortFrom := 6, defaultDg := 0, d1 := .other, d253 := .absent, d254 := .absent, dropped := [],
-  slots := [⟨0, .value, .opaque, .verbatim, .verbatim⟩, ⟨207, .list, .opaque, .verbatim, .verbatim⟩,
-            ⟨206, .list, .opaque, .verbatim, .verbatim⟩, ⟨26, .single, .opaque, .verbatim, .opaque⟩,
-            ⟨27, .list, .opaque, .verbatim, .opaque⟩] }
+  slots := [⟨0, .value, .value, .opaque, .verbatim, .verbatim⟩, ⟨207, .list, .list, .opaque, .verbatim, .verbatim⟩,
+            ⟨206, .list, .list, .opaque, .verbatim, .verbatim⟩, ⟨26, .single, .single, .opaque, .verbatim, .opaque⟩,
+            ⟨27, .list, .list, .opaque, .verbatim, .opaque⟩] }
 
 /-- file_id, then two (unrelated) record messages with timestamps 2 and 1 -/
 def kf2Msgs : List Msg := [
